@@ -276,6 +276,34 @@ def run(ctx):
                 t["finalmode"] = {MODE_SIGNER: "signer", MODE_UIHB: "uihb", MODE_BOOT: "boot"}.get(d.mode, "unknown")
                 add(t, {"src": "uihb-history", "cmd": "uiHeartbeat", "step": step, "code": t["code"]})
                 n_judged += 1
+    # a long run on one manager: over a thousand connections (every uiHeartbeat re-opens the link twice), the
+    # device's data moving on all the time - every heartbeat and every query judged like a first one
+    d = random_device(ctx.rng)
+    world, proto = mgr.serving_manager(device=d)
+    n_long = ctx.pick(560, 2500)
+    for k in range(n_long):
+        install(world)
+        world.reset_counters()
+        d.exit_modes, d.exit_drops = [], []
+        req, st = reqs.make("uiHeartbeat", ctx.rng)
+        o = mgr.handle_line(proto, json.dumps(req).encode())
+        t = project("uiHeartbeat", req, o.reply() or {}, d)
+        t["finalmode"] = {MODE_SIGNER: "signer", MODE_UIHB: "uihb", MODE_BOOT: "boot"}.get(d.mode, "unknown")
+        add(t, {"src": "long-run", "cmd": "uiHeartbeat", "n": k + 1, "code": t["code"]})
+        if d.mode != MODE_SIGNER or o.shutdown:
+            # (the property was broken just now and has been recorded; go on with a fresh manager)
+            d = random_device(ctx.rng)
+            world, proto = mgr.serving_manager(device=d)
+            continue
+        if k % 5 == 0:
+            cmd = ctx.rng.choice(["getPubKey", "blockchainState", "blockchainParameters", "signerHeartbeat"])
+            req, st = reqs.make(cmd, ctx.rng)
+            o = mgr.handle_line(proto, json.dumps(req).encode())
+            add(project(cmd, req, o.reply() or {}, d, st.get("key")), {"src": "long-run", "cmd": cmd, "n": k + 1})
+            fresh = random_device(ctx.rng)
+            d.state_hashes, d.state_diff, d.state_flags = fresh.state_hashes, fresh.state_diff, fresh.state_flags
+            d.params, d.keys, d.hb = fresh.params, fresh.keys, fresh.hb
+    res.coverage["long_run_ui_heartbeats"] = n_long
     res.coverage["ui_heartbeat_histories"] = n_hist
     res.coverage["ui_heartbeats_judged_in_histories"] = n_judged
     res.coverage["device_change_sequences"] = n_seq
